@@ -25,7 +25,8 @@ def drive(case, rng, profile, test_ids=True, mutate=False, max_calls=80, script=
     text = render(case["prog"], layout)
     out = {"text": text, "script": [], "trace": [], "exc": None, "valid": None, "stdout": ""}
     try:
-        run = impl_run.ImplRun(text, case["vals"], case["imm"], test_ids=test_ids, mutate=mutate)
+        run = impl_run.ImplRun(text, case["vals"], case["imm"], test_ids=test_ids, mutate=mutate,
+                               react=case.get("react"), react_all=bool(case.get("react_all")))
     except RecursionError:
         out["exc"] = ("construct", "RecursionError")
         return out
@@ -55,7 +56,7 @@ def drive(case, rng, profile, test_ids=True, mutate=False, max_calls=80, script=
             out["exc"] = ("call", len(out["script"]) - 1, "RecursionError")
             return False
         except Exception as e:  # noqa: BLE001
-            out["exc"] = ("call", len(out["script"]) - 1, type(e).__name__, traceback.format_exc(limit=8))
+            out["exc"] = ("call", len(out["script"]) - 1, type(e).__name__, traceback.format_exc(limit=40))
             return False
         out["trace"].append(rec)
         note(rec)
